@@ -4,7 +4,7 @@
    request was driven through: what the application code saw there (projected by the harness
    with trusted decoders only) plus digests of everything it saw and of the response.
 
-     [req, opts, kind, ev: [iface, reached, method, path, query, hmap, has_ctype, ctype, clen, host, port,
+     [req, opts, kind, resp, ev: [iface, reached, method, path, query, hmap, has_ctype, ctype, clen, host, port,
                             netloc, scheme, root, peer, body, status, dg, rs]]
 
    Total: every event is consumed; the first failing clause is recorded in `verdict`.
@@ -14,7 +14,8 @@
      P:status           the status differs from the responder's
      P:equal-request    the digest of all request attributes differs from another interface's
      P:equal-response   the normalised response differs from another interface's
-   Events of an interface that cannot express the request (ServerIface!Expressible) are skipped;
+   Events of an interface that cannot express the request (ServerIface!Expressible) or cannot report
+   the response (ServerIface!Reportable) are skipped;
    fields are compared with View only for requests without a repeated single-valued field. *)
 EXTENDS ServerIface, Json, IOUtils
 
@@ -58,14 +59,14 @@ Judge ==
     IF ~Ev.reached THEN "P:reached"
     ELSE LET f == IF Canonical(T.req.headers) THEN Fields(view) ELSE "ok" IN
       IF f # "ok" THEN f
-      ELSE IF Ev.status # ResponderStatus(T.kind) THEN "P:status"
+      ELSE IF Ev.status # ResponderStatus(T.kind, T.resp) THEN "P:status"
       ELSE IF first # 0 /\ Ev.dg # T.ev[first].dg THEN "P:equal-request"
       ELSE IF first # 0 /\ Ev.rs # T.ev[first].rs THEN "P:equal-response"
       ELSE "ok"
 
 Step ==
     /\ l >= 1 /\ l <= Len(T.ev) /\ verdict = "ok"
-    /\ IF ~Expressible(T.req, Ev.iface) THEN UNCHANGED <<verdict, first>>
+    /\ IF ~Expressible(T.req, Ev.iface) \/ ~Reportable(Ev.iface, T.kind, T.resp) THEN UNCHANGED <<verdict, first>>
        ELSE verdict' = Judge /\ first' = (IF first = 0 THEN l ELSE first)
     /\ l' = l + 1 /\ UNCHANGED <<tid, view>>
 
